@@ -293,6 +293,11 @@ def _r2(run, st):
                 for p in qps:
                     kinds |= {e.split(":", 1)[1] for e in summ[p] if e.startswith("put:")}
                 bounded = common.put_call_info(ast.parse("q.put(x)").body[0].value, ctor) == "bounded-blocking"
+                if not bounded and (_has_join_thread(cfg, qv) or common.effect_sites(project, f, cfg, {qv}, "join_thread")):
+                    run.violated("C19.R2", f, c, "the work queue %s is unbounded: the timed put inside %s can then never fail, so the liveness check it performs on `Full` "
+                                 "never runs, and after the last item the parent waits in %s.join_thread() -- forever, if the workers died with more than a "
+                                 "pipe buffer of items still queued" % (qv, helper.short, qv), kind="unbounded-queue-no-liveness", **facts)
+                    continue
                 if bounded and ("unbounded" in kinds or "bounded-blocking" in kinds):
                     run.violated("C19.R2", f, c, "helper %s puts without timeout on the bounded queue %s" % (helper.short, qv),
                                  kind="blocking-put-bounded", **facts)
@@ -322,6 +327,10 @@ def _r2(run, st):
         run.holds("C19.R2", f, st.proc_call, "no join of the workers is reachable before the done flag is set, on any path", **facts)
     if n_waits == 0:
         run.undecided("C19.R2", f, st.proc_call, "no wait found in stage", kind="no-waits")
+
+
+def _has_join_thread(cfg, qv):
+    return bool(common.method_calls_on(cfg, {qv}, "join_thread"))
 
 
 def _helper_put_checks(project, helper):
